@@ -652,8 +652,7 @@ def _worker(task):
                 m[1] += 0 if ok else 1
             if out.fail is not None:
                 part["failures"].append(out.fail)
-                if out.fail_step < len(hist) or True:
-                    skip = tuple(hist[:out.fail_step])
+                skip = tuple(hist[:out.fail_step])      # the histories below this prefix are skipped
             if len(part["samples"]) < 1 and out.nontrivial and out.fail is None:
                 part["samples"].append([repr(x) for x in key])
     finally:
@@ -741,7 +740,7 @@ def run(res, tier, seed):
     # (label, depth, min_ext, max_ext): disjoint parts, most valuable first; a part is either finished or reported unfinished
     if quick:
         parts = [("len<=3, <=2 extended ops", 3, 0, 2), ("WR", [(3, 0, 2)], 1500),
-                 ("len 4, <=1 extended op", 4, 0, 1), ("len 3, 3 extended ops", 3, 3, 3)]
+                 ("len 3, 3 extended ops", 3, 3, 3), ("len 4, <=1 extended op", 4, 0, 1)]
     else:
         parts = [("len<=3, any ops", 3, 0, 3), ("WR", [(3, 0, 3), (4, 0, 1)], 4000),
                  ("len 4, <=2 extended ops", 4, 0, 2), ("RANDOM", 5, 8),
